@@ -87,6 +87,9 @@ func TestVerifC19_mhcv_agg(t *testing.T) {
 		RTMaxBatch:  2,
 		Seeds:       r.Pick(2, 5),
 		DomainLimit: 8,
+		SweepInsts:    []prio.Inst{c19M(3, 2, 2)},
+		HistoryInsts:  []prio.Inst{c19M(3, 2, 2), c19M(2, 1, 1)},
+		HistoryShares: []int{2, 3},
 	}
 	if r.Thorough() {
 		plan.FullShares = []int{2, 3, 4, 9}
